@@ -227,7 +227,46 @@ def mutate(rng, v, kinds):
     return rand_scalar(rng)
 
 
+FALSY = [None, False, 0, "", 0.0]
+
+
+def gen_edge_pair(rng, ev, kinds):
+    """Edge streams: (a) an expected entry with a None/falsy value whose key is missing in a
+    received dict that is not smaller; (b) very many unmentioned members along the path."""
+    if rng.random() < 0.5:
+        kinds["edge-missing-falsy"] = kinds.get("edge-missing-falsy", 0) + 1
+        keys = rng.sample(KEYS[:4] + ["x1"], rng.randint(1, 3))
+        p = {k: rng.choice(FALSY + [rand_scalar(rng)]) for k in keys}
+        v = {k: x for k, x in p.items()}
+        drop = rng.choice(keys)
+        del v[drop]
+        for i in range(rng.randint(1, 3)):
+            v["extra%d" % i] = rand_scalar(rng)
+        wrap = rng.randrange(3)
+        if wrap == 1:
+            p, v = {"a": p}, {"a": v, "b": 1}
+        elif wrap == 2:
+            p, v = [p], [0, v]
+        return p, v
+    kinds["edge-many-unmentioned"] = kinds.get("edge-many-unmentioned", 0) + 1
+    n = rng.choice([60, 100, 130, 200])
+    shape = rng.randrange(3)
+    if shape == 0:
+        p = {"a": "x"}
+        v = {"a": "x", **{"p%d" % i: i for i in range(n)}}
+    elif shape == 1:
+        p = {"a": ["needle"]}
+        v = {"a": [str(i) for i in range(n)] + ["needle"]}
+    else:
+        m = n // 3
+        p = {"a": {"b": [1]}}
+        v = {"a": {"b": [0] * m + [1], **{"q%d" % i: i for i in range(m)}}, **{"p%d" % i: i for i in range(m)}}
+    return p, v
+
+
 def gen_pair(rng, ev, kinds):
+    if rng.random() < 0.03:
+        return gen_edge_pair(rng, ev, kinds)
     depth = rng.choice([1, 2, 2, 3, 3, 4])
     p = rand_pattern(rng, ev, depth)
     r = rng.random()
@@ -425,6 +464,19 @@ def _safe(f, a, b):
         return f(a, b)
     except SpecErr:
         raise
+
+
+def strip_cmp(p):
+    """Pattern with comparison expressions replaced by None (they make the spec undefined)."""
+    if id(p) in CMP_REG:
+        return None
+    if isinstance(p, dict):
+        return {k: strip_cmp(x) for k, x in p.items()}
+    if isinstance(p, list):
+        return [strip_cmp(x) for x in p]
+    if isinstance(p, (set, frozenset)):
+        return {strip_cmp(x) for x in p}
+    return p
 
 
 def classify_args(p, v):
@@ -784,6 +836,29 @@ def run(tier, seed, replay=None):
                     disagreements.append((p, v, r))
     elif not okm:
         out.add_broken("coq:theories/Val/MatchRun.v", logm)
+
+    # search amplification: when the correspondence broke, widen around the disagreeing cases
+    # with the direct oracle on the implementation (no Coq needed)
+    if disagreements and not spec_viol:
+        tried = 0
+        for p, v, r in disagreements[:40]:
+            for _ in range(400):
+                tried += 1
+                k2 = {}
+                v2 = mutate(rng, v, k2) if rng.random() < 0.7 else instantiate(rng, p)
+                p2 = p
+                if rng.random() < 0.5:
+                    p2 = strip_cmp(p)
+                r2 = impl_args(sm, CVE, p2, v2, factor)
+                try:
+                    want = spec_matches(p2, v2)
+                except SpecErr:
+                    continue
+                if r2[0] in ("yes", "no") and (r2[0] == "yes") != want:
+                    spec_viol.append((p2, v2, r2, want))
+            if spec_viol:
+                break
+        out.coverage["amplification_cases"] = tried
 
     for p, v, r, want in spec_viol[:50]:
         sig = classify_args(p, v)
